@@ -767,6 +767,25 @@ func (c *SpecCtx) call(x *SCall) Val {
 		c.readsOld = true
 		defer func() { c.readsOld = saved }()
 		return c.eval(x.Args[0])
+	case "at":
+		// at(s, k): element k of slice s through an accessor function symbol elemat_T(heap, s, k) == s[k], so that quantified
+		// facts about elements can be triggered without index arithmetic in the pattern
+		sv := arg(0)
+		sl, ok := sv.Ty.Underlying().(*types.Slice)
+		if !ok {
+			c.fail("at() of non-slice")
+		}
+		et := sl.Elem()
+		id, hsort, h := s.elemHeap(et)
+		_ = id
+		sym := e.d.symbol("elemat_", typeKey(et))
+		es := e.sortOf(et)
+		if !e.atDeclared[sym] {
+			e.atDeclared[sym] = true
+			e.d.add("elemat:"+sym, fmt.Sprintf("(declare-fun %s (%s Slice Int) %s)", sym, hsort, es))
+			e.d.addAxiom("core", "def_"+sym, fmt.Sprintf("(forall ((h %s) (s Slice) (k Int)) (! (= (%s h s k) (select (select h (s_base s)) (+ (s_off s) k))) :pattern ((%s h s k))))", hsort, sym, sym))
+		}
+		return Val{T: "(" + sym + " " + h + " " + sv.T + " " + c.evalInt(x.Args[1]) + ")", Ty: et}
 	case "dynknown":
 		// dynknown(v): the dynamic type of the interface value is known structurally on this path
 		return bval(fmt.Sprint(arg(0).Dyn != nil))
